@@ -266,6 +266,39 @@ def replay(ctx: Ctx, rep: dict):
     one_case(ctx, geom, jnp, c, 0)
 
 
+def dtype_cases(ctx: Ctx, geom, jnp, n):
+    """real-valued (dyadic) images with filters handed over in an INTEGER dtype, and integer images with
+    float filters: the result must still be the real-valued direct sum (linearity: conv(A/4, F) = conv(A, F)/4)"""
+    for it in range(n):
+        c = gen_case(ctx)
+        if c["kind"] in ("TORUS", "SAME", "none") and any(m % 2 == 0 for m in c["M"]):
+            continue
+        try:
+            spec = call_model(ctx, c, "spec")
+        except DriverReject:
+            continue
+        if 0 in spec.shape:
+            continue
+        a = impl_args(c)
+        desc = dict(describe(c), part="dtype", image_dtype="float32 (quarters)", filter_dtype="int32")
+        ctx.case(("dtype", it, desc), True, sample=desc if it == 0 else None)
+        ctx.hist("dtype_case", "float image / int filter")
+        try:
+            out = geom.convolve(c["d"], jnp.array(c["img"], dtype=jnp.float32) / 4.0, jnp.array(c["flt"], dtype=jnp.int32),
+                                a["is_torus"], a["stride"], a["padding"], a["lhs_dilation"], a["rhs_dilation"])
+            out = np.asarray(out, dtype=np.float64)
+            out2 = geom.convolve(c["d"], jnp.array(c["img"], dtype=jnp.int32), jnp.array(c["flt"], dtype=jnp.float32) / 2.0,
+                                 a["is_torus"], a["stride"], a["padding"], a["lhs_dilation"], a["rhs_dilation"])
+            out2 = np.asarray(out2, dtype=np.float64)
+        except Exception as e:
+            ctx.violation("oracle", "geom.convolve raised on a real image with an integer-dtype filter",
+                          dict(desc, image=jarr(c["img"]), filter=jarr(c["flt"]), raised=repr(e)[:300]))
+            continue
+        if out.shape != spec.shape or not np.array_equal(out, spec / 4.0) or not np.array_equal(out2, spec / 2.0):
+            ctx.violation("oracle", "convolution of a real-valued image with an integer-dtype filter (or an integer image with a "
+                          "real filter) differs from the direct sum", dict(desc, image_times_4=jarr(c["img"]), filter=jarr(c["flt"])))
+
+
 def run(ctx: Ctx):
     import jax.numpy as jnp
     import ginjax.geometric as geom
@@ -287,3 +320,4 @@ def run(ctx: Ctx):
     for i in range(n):
         one_case(ctx, geom, jnp, gen_case(ctx), i)
     convolve_with_cases(ctx, geom, jnp, 25 if ctx.tier == "quick" else 300)
+    dtype_cases(ctx, geom, jnp, 12 if ctx.tier == "quick" else 150)
